@@ -229,7 +229,7 @@ fn bytes_item(content: &[u8]) -> Vec<u8> {
     v
 }
 
-struct RecSink { writes: Vec<Vec<u8>>, fail: bool }
+struct RecSink { writes: Vec<Vec<u8>>, fail: bool, flushes: usize }
 
 impl io::Write for RecSink {
     fn write(&mut self, buf: &[u8]) -> io::Result<usize> {
@@ -237,14 +237,21 @@ impl io::Write for RecSink {
         self.writes.push(buf.to_vec());
         Ok(buf.len())
     }
-    fn flush(&mut self) -> io::Result<()> { Ok(()) }
+    fn flush(&mut self) -> io::Result<()> {
+        self.flushes += 1;
+        if self.fail { return Err(io::Error::new(io::ErrorKind::Other, "scripted")) }
+        Ok(())
+    }
 }
 
 pub fn iow_handler(a: &[&str]) -> String {
-    let max: u32 = kv(a, "max").parse().unwrap();
-    let vals: Vec<Val> = items(kv(a, "vals")).iter().map(|s| val_of_item(s)).collect();
+    let mut max: u32 = kv(a, "max").parse().unwrap();
+    let mut max_seen = max;
+    // vals items: a value, or a caller operation F (Writer::flush) / M<n> (set_max_len n)
+    let its = items(kv(a, "vals"));
+    let vals: Vec<Val> = its.iter().map(|s| if *s == "F" || (s.len() > 1 && s.starts_with('M')) { Val { content: Vec::new(), fail: false } } else { val_of_item(s) }).collect();
     let sk: Vec<char> = match kv(a, "sink") { "-" => Vec::new(), s => s.chars().collect() };
-    let snk = RecSink { writes: Vec::new(), fail: false };
+    let snk = RecSink { writes: Vec::new(), fail: false, flushes: 0 };
     let mut writer = if vals.len() % 3 == 1 { Writer::with_buffer(snk, Vec::with_capacity(16)) } else { Writer::new(snk) };
     writer.set_max_len(max);
     let mut rs: Vec<String> = Vec::new();
@@ -254,6 +261,24 @@ pub fn iow_handler(a: &[&str]) -> String {
         let fail_sink = i < sk.len() && sk[i] == 'E';
         writer.writer_mut().fail = fail_sink;
         let before = writer.writer().writes.len();
+        if its[i] == "F" || (its[i].len() > 1 && its[i].starts_with('M')) {
+            // flush / set_max_len: nothing reaches the sink as data; flush reports the inner result
+            let fl0 = writer.writer().flushes;
+            if its[i] == "F" {
+                let r = writer.flush();
+                rs.push(match &r { Ok(()) => "f".to_string(), Err(e) => format!("fe:{}", err_class(e)) });
+                if r.is_ok() == fail_sink { verdict = verdict.and(Err(format!("item {}: flush result does not follow the inner flush", i))) }
+                if writer.writer().flushes != fl0 + 1 { verdict = verdict.and(Err(format!("item {}: flush did not call the inner flush exactly once", i))) }
+            } else {
+                let v: u32 = its[i][1 ..].parse().unwrap();
+                writer.set_max_len(v);
+                max = v;
+                max_seen = max_seen.max(v);
+                rs.push(format!("m{}", v));
+            }
+            if writer.writer().writes.len() != before { verdict = verdict.and(Err(format!("item {}: flush / set_max_len wrote to the sink", i))) }
+            continue
+        }
         let r = writer.write(v.clone());
         let after = writer.writer().writes.len();
         let payload = bytes_item(&v.content);
@@ -279,7 +304,7 @@ pub fn iow_handler(a: &[&str]) -> String {
     }
     let (sink, buf) = writer.into_parts();
     if sink.writes != expect_sink { verdict = verdict.and(Err("sink content is not the concatenation of the accepted frames".into())) }
-    if sink.writes.iter().any(|w| w.len() > max as usize + 4) { verdict = verdict.and(Err("a frame larger than max_len + 4 was emitted".into())) }
+    if sink.writes.iter().any(|w| w.len() > max_seen as usize + 4) { verdict = verdict.and(Err("a frame larger than max_len + 4 was emitted".into())) }
     with_oracle(format!("{} sink={} buf={}", list_or_dash(&rs), show_chunks(&sink.writes), hex_or_dash(&buf)), verdict)
 }
 
@@ -377,8 +402,16 @@ pub fn aior_handler(a: &[&str]) -> String {
 // ------------------------------------------------------------------ AIOW: AsyncWriter
 #[derive(Clone, Copy)]
 enum KTok { Accept(usize), Pend, Err }
+#[derive(Clone, Copy)]
+enum FTok { Ready, Pend, Err }
 
-struct ScriptedAsyncWrite { writes: Vec<Vec<u8>>, sched: VecDeque<KTok>, calls: usize, zeros: usize, budget: usize }
+struct ScriptedAsyncWrite { writes: Vec<Vec<u8>>, sched: VecDeque<KTok>, calls: usize, zeros: usize, budget: usize, fsched: VecDeque<FTok>, fcalls: usize, fbudget: usize }
+
+impl ScriptedAsyncWrite {
+    fn new(sched: VecDeque<KTok>, budget: usize, fsched: VecDeque<FTok>, fbudget: usize) -> Self {
+        ScriptedAsyncWrite { writes: Vec::new(), sched, calls: 0, zeros: 0, budget, fsched, fcalls: 0, fbudget }
+    }
+}
 
 impl AsyncWrite for ScriptedAsyncWrite {
     fn poll_write(mut self: Pin<&mut Self>, _cx: &mut Context<'_>, buf: &[u8]) -> Poll<io::Result<usize>> {
@@ -396,21 +429,81 @@ impl AsyncWrite for ScriptedAsyncWrite {
         this.writes.push(buf[.. n].to_vec());
         Poll::Ready(Ok(n))
     }
-    fn poll_flush(self: Pin<&mut Self>, _cx: &mut Context<'_>) -> Poll<io::Result<()>> { Poll::Ready(Ok(())) }
+    fn poll_flush(mut self: Pin<&mut Self>, _cx: &mut Context<'_>) -> Poll<io::Result<()>> {
+        let this = &mut *self;
+        this.fcalls += 1;
+        runaway(this.fcalls, this.fbudget, 0);
+        match this.fsched.pop_front() {
+            None | Some(FTok::Ready) => Poll::Ready(Ok(())),
+            Some(FTok::Pend) => Poll::Pending,
+            Some(FTok::Err) => Poll::Ready(Err(io::Error::new(io::ErrorKind::Other, "scripted")))
+        }
+    }
     fn poll_close(self: Pin<&mut Self>, _cx: &mut Context<'_>) -> Poll<io::Result<()>> { Poll::Ready(Ok(())) }
 }
 
-/// The caller protocol of C16 for one value.  Returns the events and, if the write future itself
-/// completed, the length it reported.
-fn drive_write(w: &mut AsyncWriter<ScriptedAsyncWrite>, v: &Val, calls: &mut Calls, cx: &mut Context<'_>, limit: usize) -> (Vec<String>, Option<usize>) {
+/// A caller operation other than write / sync: `F[PX]*` flush (the letters are the caller's decisions after each
+/// Pending of the flush future: P poll again, X drop it; none left = poll again), `M<n>` set_max_len(n).
+enum Op { Flush(VecDeque<char>), SetMax(u32) }
+
+/// The stream of gaps (`ops=`): one gap is consumed wherever the caller holds no pending future and is about to
+/// issue a protocol call (before each write, before each (re-)issued sync, before the final sync).
+struct Gaps { q: VecDeque<Vec<Op>>, cur_max: u32, verdict: Result<(), String> }
+
+impl Gaps {
+    fn new(s: &str, max: u32) -> Self {
+        let q = if s == "-" { VecDeque::new() } else {
+            s.split('/').map(|g| items(g).iter().map(|t| {
+                if let Some(d) = t.strip_prefix('F') { Op::Flush(d.chars().map(|c| if c == 'x' { 'X' } else { c }).collect()) }
+                else if let Some(n) = t.strip_prefix('M') { Op::SetMax(n.parse().unwrap()) }
+                else { panic!("bad op token {}", t) }
+            }).collect()).collect()
+        };
+        Gaps { q, cur_max: max, verdict: Ok(()) }
+    }
+
+    /// run the next gap on the real writer; the events go to `evs`.  Oracle (C16 with interleaved operations):
+    /// neither flush (completed, failed or dropped) nor set_max_len may put bytes into the sink, call poll_write,
+    /// or change what a following sync sends (the latter is seen by the frame oracle of the caller).
+    fn run(&mut self, w: &mut AsyncWriter<ScriptedAsyncWrite>, cx: &mut Context<'_>, evs: &mut Vec<String>) {
+        let gap = match self.q.pop_front() { Some(g) => g, None => return };
+        for op in gap {
+            let (calls0, nw0) = (w.writer().calls, w.writer().writes.len());
+            match op {
+                Op::SetMax(v) => { w.set_max_len(v); self.cur_max = v; evs.push(format!("m{}", v)) }
+                Op::Flush(mut ds) => {
+                    let mut fut = Box::pin(w.flush());
+                    loop {
+                        match fut.as_mut().poll(cx) {
+                            Poll::Ready(Ok(())) => { evs.push("f".into()); break }
+                            Poll::Ready(Err(e)) => { evs.push(format!("fe:{}", err_class(&e))); break }
+                            Poll::Pending => if ds.pop_front() == Some('X') { evs.push("fx".into()); break }
+                        }
+                    }
+                }
+            }
+            if w.writer().calls != calls0 || w.writer().writes.len() != nw0 {
+                let v: Result<(), String> = Err("flush / set_max_len called poll_write on the sink".into());
+                self.verdict = std::mem::replace(&mut self.verdict, Ok(())).and(v);
+            }
+        }
+    }
+}
+
+/// The caller protocol of C16 for one value.  Returns the events, the length the write future reported if it
+/// completed itself, and the max_len in force when the write was issued.
+fn drive_write(w: &mut AsyncWriter<ScriptedAsyncWrite>, v: &Val, calls: &mut Calls, gaps: &mut Gaps, cx: &mut Context<'_>, limit: usize) -> (Vec<String>, Option<usize>, u32, usize) {
     let mut evs = Vec::new();
     let mut steps = 0;
+    gaps.run(w, cx, &mut evs);
+    let max_at_start = gaps.cur_max;
+    let calls_at_start = w.writer().calls;
     {
         let mut fut = Box::pin(w.write(v.clone()));
         loop {
             steps += 1;
             match fut.as_mut().poll(cx) {
-                Poll::Ready(Ok(n)) => { evs.push(format!("w:{}", n)); return (evs, Some(n)) }
+                Poll::Ready(Ok(n)) => { evs.push(format!("w:{}", n)); return (evs, Some(n), max_at_start, calls_at_start) }
                 Poll::Ready(Err(e)) => { evs.push(format!("we:{}", err_class(&e))); break }
                 Poll::Pending => if calls.drop_now() { break }
             }
@@ -418,12 +511,13 @@ fn drive_write(w: &mut AsyncWriter<ScriptedAsyncWrite>, v: &Val, calls: &mut Cal
     }
     // the write future was dropped or failed: drive sync to completion
     loop {
+        gaps.run(w, cx, &mut evs);
         let mut fut = Box::pin(w.sync());
         loop {
             steps += 1;
-            if steps > limit { evs.push("sfuel".into()); return (evs, None) }
+            if steps > limit { evs.push("sfuel".into()); return (evs, None, max_at_start, calls_at_start) }
             match fut.as_mut().poll(cx) {
-                Poll::Ready(Ok(())) => { evs.push("s".into()); return (evs, None) }
+                Poll::Ready(Ok(())) => { evs.push("s".into()); return (evs, None, max_at_start, calls_at_start) }
                 Poll::Ready(Err(e)) => { evs.push(format!("se:{}", err_class(&e))); break }
                 Poll::Pending => if calls.drop_now() { break }
             }
@@ -436,11 +530,15 @@ pub fn aiow_handler(a: &[&str]) -> String {
     let vals: Vec<Val> = items(kv(a, "vals")).iter().map(|s| val_of_item(s)).collect();
     let toks = items(kv(a, "sink"));
     let sched: VecDeque<KTok> = toks.iter().map(|t| match *t { "P" => KTok::Pend, "E" => KTok::Err, k => KTok::Accept(k.parse().unwrap()) }).collect();
+    let ftoks = items(kv(a, "fl"));
+    let fsched: VecDeque<FTok> = ftoks.iter().map(|t| match *t { "P" => FTok::Pend, "E" => FTok::Err, "R" => FTok::Ready, t => panic!("bad fl token {}", t) }).collect();
     let mut calls = Calls::new(kv(a, "calls"));
+    let mut gaps = Gaps::new(kv(a, "ops"), max);
+    let nflush: usize = gaps.q.iter().map(|g| g.iter().filter(|o| matches!(o, Op::Flush(_))).count()).sum();
     let waker = noop_waker();
     let mut cx = Context::from_waker(&waker);
     let budget = sched.len() + 8 * vals.len();
-    let snk = ScriptedAsyncWrite { writes: Vec::new(), sched, calls: 0, zeros: 0, budget };
+    let snk = ScriptedAsyncWrite::new(sched, budget, fsched, ftoks.len() + nflush + 4);
     let mut w = if vals.len() % 3 == 1 { AsyncWriter::with_buffer(snk, Vec::with_capacity(16)) } else if vals.len() % 3 == 2 { AsyncWriter::with_buffer(snk, Vec::with_capacity(100_000)) } else { AsyncWriter::new(snk) };
     w.set_max_len(max);
     let limit = 2 * toks.len() + 8;
@@ -450,16 +548,16 @@ pub fn aiow_handler(a: &[&str]) -> String {
     let mut nwz = 0;
     // a writer built over a recycled, non-empty buffer (with_buffer) is idle: sync before the first write writes nothing
     {
-        let snk2 = ScriptedAsyncWrite { writes: Vec::new(), sched: VecDeque::new(), calls: 0, zeros: 0, budget: 4 };
+        let snk2 = ScriptedAsyncWrite::new(VecDeque::new(), 4, VecDeque::new(), 4);
         let mut w2 = AsyncWriter::with_buffer(snk2, vec![0xaa; 16]);
         let r = { let mut fut = Box::pin(w2.sync()); fut.as_mut().poll(&mut cx) };
         if !matches!(r, Poll::Ready(Ok(()))) || w2.writer().calls != 0 { verdict = verdict.and(Err("sync on a fresh writer over a recycled buffer wrote to the sink".into())) }
     }
     for (i, v) in vals.iter().enumerate() {
         let payload = bytes_item(&v.content);
-        let accepted = !v.fail && payload.len() <= max as usize;
-        let before_calls = w.writer().calls;
-        let (evs, ret) = drive_write(&mut w, v, &mut calls, &mut cx, limit);
+        let (evs, ret, max_now, before_calls) = drive_write(&mut w, v, &mut calls, &mut gaps, &mut cx, limit);
+        // accepted is judged against the max_len in force when this value's write was issued
+        let accepted = !v.fail && payload.len() <= max_now as usize;
         nwz += evs.iter().filter(|e| e.ends_with(":wz")).count();
         if accepted {
             expect.extend_from_slice(&frame_of(&payload));
@@ -467,14 +565,16 @@ pub fn aiow_handler(a: &[&str]) -> String {
             if evs.iter().any(|e| e == "we:len" || e == "we:enc") { verdict = verdict.and(Err(format!("value {} fits but was refused", i))) }
         } else {
             let want = if v.fail { "we:enc" } else { "we:len" };
-            if evs.first().map(|e| e.as_str()) != Some(want) { verdict = verdict.and(Err(format!("value {} must be refused with {} but got {:?}", i, want, evs))) }
+            if evs.iter().find(|e| e.starts_with('w')).map(|e| e.as_str()) != Some(want) { verdict = verdict.and(Err(format!("value {} must be refused with {} but got {:?}", i, want, evs))) }
             if w.writer().calls != before_calls { verdict = verdict.and(Err(format!("value {} was refused but the sink was called", i))) }
         }
         // at every completed step of the protocol the sink holds whole frames only
         if w.writer().writes.concat() != expect { verdict = verdict.and(Err(format!("after value {} the sink is not the concatenation of the complete frames written so far", i))) }
         evss.push(evs.join(","));
     }
-    // sync on the idle writer
+    // the last gap, then sync on the idle writer
+    let mut finevs: Vec<String> = Vec::new();
+    gaps.run(&mut w, &mut cx, &mut finevs);
     let before_calls = w.writer().calls;
     let fin = {
         let mut fut = Box::pin(w.sync());
@@ -485,9 +585,11 @@ pub fn aiow_handler(a: &[&str]) -> String {
         }
     };
     if fin != "s" || w.writer().calls != before_calls { verdict = verdict.and(Err("sync on the idle writer did something".into())) }
+    finevs.push(fin);
+    verdict = verdict.and(std::mem::replace(&mut gaps.verdict, Ok(())));
     let (sink, buf) = w.into_parts();
     if nwz != sink.zeros { verdict = verdict.and(Err(format!("the sink accepted zero bytes {} times but {} write-zero errors were reported", sink.zeros, nwz))) }
     if sink.writes.concat() != expect { verdict = verdict.and(Err("sink content is not the concatenation of the accepted frames".into())) }
     let evtxt = if evss.is_empty() { "-".to_string() } else { evss.join(";") };
-    with_oracle(format!("{} fin={} sink={} calls={} buf={}", evtxt, fin, show_chunks(&sink.writes), sink.calls, hex_or_dash(&buf)), verdict)
+    with_oracle(format!("{} fin={} sink={} calls={} fl={} buf={}", evtxt, finevs.join(","), show_chunks(&sink.writes), sink.calls, sink.fcalls, hex_or_dash(&buf)), verdict)
 }
